@@ -1,11 +1,15 @@
 package handler
 
 import (
+	"context"
 	"io"
 	"net/http"
 	"net/url"
 	"strings"
 
+	"github.com/vektah/gqlparser/v2/gqlerror"
+
+	"github.com/99designs/gqlgen/graphql"
 	"github.com/99designs/gqlgen/graphql/handler/extension"
 	"github.com/99designs/gqlgen/graphql/handler/transport"
 	"github.com/99designs/gqlgen/zzsym"
@@ -141,4 +145,66 @@ func Harness_C09_negotiationSequence() {
 		zzsym.Assert(!polluted && len(hdr) == len(hRespHdrs[rhi].hdr), "the configured response headers are not modified by serving requests")
 	}
 	zzsym.Reach("c09.negseq")
+}
+
+func Setup_C09_routing() { Setup_C09_http() }
+
+// Harness_C09_routing: which transport serves a request depends on the order
+// the transports were added and on the request's method and Content-Type:
+// for both orders and every (method, Content-Type, where the document is)
+// combination, a GET never executes a mutation, whatever is executed is the
+// operation the request names, and the status follows the outcome.
+func Harness_C09_routing() {
+	es := &hES{}
+	srv := New(es)
+	ts := []graphql.Transport{transport.Options{}, transport.GET{}, transport.POST{}, transport.GRAPHQL{}, transport.UrlEncodedForm{}}
+	if zzsym.Choice("order", 2) == 1 {
+		for i, j := 0, len(ts)-1; i < j; i, j = i+1, j-1 {
+			ts[i], ts[j] = ts[j], ts[i]
+		}
+	}
+	for _, t := range ts {
+		srv.AddTransport(t)
+	}
+	srv.SetRecoverFunc(func(ctx context.Context, err any) error {
+		zzsym.Assert(false, "the recover hook ran although no user code panicked (gqlgen's own panic)")
+		return gqlerror.Errorf("internal system error")
+	})
+	method := []string{"GET", "POST", "PUT"}[zzsym.Choice("method", 3)]
+	ct := []string{"", "application/json", "application/graphql-response+json", "application/json; charset=utf-8", "application/graphql-response+json;charset=utf-8", "application/graphql", "application/x-www-form-urlencoded", "text/plain"}[zzsym.Choice("ctype", 8)]
+	inBody := hDocs[[]int{0, 5, 2}[zzsym.Choice("body", 3)]] // a query, a mutation, a named mutation among two operations
+	inURL := zzsym.Choice("url", 3)                          // 0 nothing, 1 a query, 2 a mutation
+	r := &http.Request{Method: method, Header: http.Header{}, URL: &url.URL{Path: "/query"}}
+	if ct != "" {
+		r.Header.Set("Content-Type", ct)
+	}
+	if inURL != 0 {
+		v := url.Values{}
+		v.Set("query", hDocs[[]int{0, 0, 5}[inURL]].query)
+		r.URL.RawQuery = v.Encode()
+	}
+	body := hJSONBody(inBody)
+	if ct == "application/graphql" {
+		body = inBody.query
+	}
+	r.Body = io.NopCloser(strings.NewReader(body))
+	w := newHWriter()
+	srv.ServeHTTP(w, r)
+	hCheckBody(w)
+	executed := len(es.execs) > 0
+	if method == "GET" {
+		for _, e := range es.execs {
+			zzsym.Assert(strings.HasPrefix(e, "query:"), "over GET only query operations are ever executed, whichever transport picks the request up")
+		}
+	}
+	zzsym.Assert(len(es.execs) <= 1, "at most one operation is executed per request")
+	if executed {
+		zzsym.Assert(w.status == 200, "a request whose execution started is answered 200")
+		zzsym.Reach("c09.routing.executed")
+	} else {
+		zzsym.Reach("c09.routing.refused")
+	}
+	if w.status < 200 || w.status > 299 {
+		zzsym.Assert(!executed, "nothing runs for a request answered with a non-2xx status")
+	}
 }
